@@ -87,10 +87,10 @@ func GenPrecedenceWorld(r *rng.R, c Cfg) *World {
 			pod, other = dst, src
 		}
 		a.Subject = SubjectFor(r, w, pod)
-		nr := r.Range(1, 3)
+		nr := r.Range(1, 4)
 		for j := 0; j < nr; j++ {
 			rule := ANPRule{Name: fmt.Sprintf("r%d", j), Action: rng.Pick(r, []string{"Allow", "Deny", "Pass"})}
-			if r.P(0.85) {
+			if r.P(0.8) {
 				rule.Peers = []Subject{SubjectFor(r, w, other)}
 			} else {
 				rule.Peers = []Subject{GenSubject(r, w)}
@@ -150,10 +150,18 @@ func GenPrecedenceWorld(r *rng.R, c Cfg) *World {
 			pod, other = dst, src
 		}
 		b := &BANP{Name: "default", Subject: SubjectFor(r, w, pod)}
-		nr := r.Range(1, 2)
+		// up to four ordered rules; some do not select the other end, some carry no ports: the FIRST rule that matches both the
+		// other end and the port decides, whatever stands between
+		nr := r.Range(1, 4)
 		for j := 0; j < nr; j++ {
 			rule := ANPRule{Name: fmt.Sprintf("b%d", j), Action: rng.Pick(r, []string{"Allow", "Deny"}), Peers: []Subject{SubjectFor(r, w, other)}}
+			if r.P(0.25) {
+				rule.Peers = []Subject{GenSubject(r, w)}
+			}
 			rule.Ports, rule.HasPorts = directedANPPorts(r, dst, c)
+			if r.P(0.2) {
+				rule.Ports, rule.HasPorts = nil, false
+			}
 			if ingress {
 				b.Ingress = append(b.Ingress, rule)
 			} else {
@@ -336,8 +344,12 @@ func AddIsolatedNamespace(r *rng.R, w *World) {
 		w.Workloads = append(w.Workloads, Workload{Ns: x, Name: fmt.Sprintf("iso%d", i), Kind: KDeployment, Labels: map[string]string{"app": fmt.Sprintf("iso%d", i)}, Ports: []CPort{{Num: 80}}})
 	}
 	egress := r.P(0.7)
-	ghost := func() *Sel { return &Sel{ML: map[string]string{"app": rng.Pick(r, []string{"audit", "ghost", "nobody"})}} }
-	rule := func(p NPPeer) NPRule { return NPRule{Peers: []NPPeer{p}, Ports: []NPPort{{Port: rng.Pick(r, PortNums)}}} }
+	ghost := func() *Sel {
+		return &Sel{ML: map[string]string{"app": rng.Pick(r, []string{"audit", "ghost", "nobody"})}}
+	}
+	rule := func(p NPPeer) NPRule {
+		return NPRule{Peers: []NPPeer{p}, Ports: []NPPort{{Port: rng.Pick(r, PortNums)}}}
+	}
 	// the isolated namespace: both directions governed; the closed one has no rule, the open one only reaches nobody
 	iso := NetPol{Ns: x, Name: "isolate", PodSel: Sel{}, HasTypes: true, PolicyTypes: []string{"Ingress", "Egress"}}
 	var open []NPRule
